@@ -41,8 +41,11 @@ CHECKS = {
         'text': ('Real solver code run by real threads under a seeded baton-passing scheduler (pre-emption at every Python line of cvxopt), '
                  'plus sequential call histories with global/per-call option churn and failing calls; every result is compared bit for bit '
                  '(all fields, stdout) with the same call in a pristine forked interpreter; byte images of all arguments and a snapshot of '
-                 'all module-level state are compared around every call; iterations <= effective maxiters; reported accuracy satisfies the effective tolerances.'),
-        'note': ('C calls are atomic w.r.t. Python-visible state (wrappers release the GIL only around Fortran routines on their own buffers); '
+                 'all module-level state (Python attributes, and the writable static data of the four C extension modules built from the tree) '
+                 'are compared around every call; invalid option values must be rejected with ValueError; iterations <= effective maxiters; '
+                 'reported accuracy satisfies the effective tolerances; nested GLPK/DSDP option dictionaries are part of the option model.'),
+        'note': ('C calls are atomic w.r.t. Python-visible state (wrappers release the GIL only around Fortran routines on their own buffers) - '
+                 'two threads inside GIL-released sections at once cannot be scheduled; C statics are covered by the static-data snapshot instead; '
                  'single-threaded OpenBLAS; sampled schedules and histories - evidence, not proof. GLPK/DSDP back-ends are prebuilt binaries.'),
         'technique': 'deterministic thread-schedule simulation (settrace yield points, seeded PCT/random/round-robin schedulers) with option-churn faults; bitwise oracle against pristine reference process',
     },
@@ -67,7 +70,7 @@ CHECKS = {
         'engine': 'densesim', 'category': 'exploration', 'design_ref': 'DESIGN.md 5.C15',
         'text': ('Seeded histories of in-place and regular operations over a pool of aliased names and memoryviews of dense matrices (i/d/z, incl. 0xn, mx0) '
                  'against a column-major Python model with exact small-integer data; after every operation every live name is compared with the model; '
-                 'allocator seam (guard bytes, poison-on-free) armed.'),
+                 'index lists / index matrices and all other operands must be left unchanged; allocator seam (guard bytes, poison-on-free, electric fence) armed.'),
         'note': 'Fault-free corner; only the history/aliasing dimension of C15 is claimed, the construction/indexing input space is sampled as a by-product. Seam build (-include seam.h).',
         'technique': 'seeded operation-history simulation over aliased references against a reference model, allocator seam as trip-wire, ddmin, exact replay',
     },
@@ -75,7 +78,8 @@ CHECKS = {
         'engine': 'sparsesim', 'category': 'exploration', 'design_ref': 'DESIGN.md 5.C16',
         'text': ('Seeded histories of mutating operations on sparse matrices (indexed assignment of every index kind, V/size assignment, in-place ops, axpy/gemm/syrk '
                  'incl. partial=True) mirrored on a dense twin; CCS validity of every live sparse object and equality with the twin after every step; '
-                 'interpreter crashes are verdicts via the operation journal; allocator guard bytes armed.'),
+                 'operands (incl. index objects) unchanged; directed operand-reuse scenarios (product, in-place mutation, same product); '
+                 'interpreter crashes are verdicts via the operation journal; allocator guard bytes / electric fence armed.'),
         'note': 'Fault-free corner; history dimension; the oracle is the property\'s own definition (dense image), so an error common to dense and sparse code is invisible. Exact small-integer data.',
         'technique': 'seeded operation-history simulation with dense-twin reference and CCS invariant, crash journal, allocator seam, ddmin, exact replay',
     },
@@ -83,7 +87,8 @@ CHECKS = {
         'engine': 'lifesim', 'category': 'exploration', 'design_ref': 'DESIGN.md 5.C20',
         'text': ('Seeded histories of export / write-through / release / owner-drop / gc / resize / copy / pickle (protocols 0-5) / tofile-fromfile through a simulated '
                  'stream with EOF-at-byte-b, OSError and wrong-type faults / buffer import; model of storage + alias relation checked after every operation; '
-                 'poison-on-free allocator makes a dangling export observable.'),
+                 'every export must pin its exporter by exactly one reference (reference-count oracle); poison-on-free / electric-fence allocator '
+                 'makes a dangling export observable; a crash of the interpreter is a verdict attributed to the journalled operation.'),
         'note': 'Assumes CPython reference counting. 2-D strided/Fortran buffer sources need NumPy, which /venv lacks - out of reach. Seam build.',
         'technique': 'deterministic simulation of object-lifetime histories with stream fault injection and a poison-on-free allocator seam; reference model of storage and aliasing',
     },
